@@ -10,6 +10,7 @@ Spec: spec/Encrypt.tla (PKESK / SKESK / SEIPD / MDC layouts, RFC 6637 KDF parame
 """
 import os
 import warnings
+from cryptography.hazmat.primitives import serialization
 import zlib
 import bz2
 
@@ -381,6 +382,39 @@ def foreign_events(ctx, W):
         sigp, _ = build.sig_packet(sk_, 0x00, 'sha256', [], [], build.subject_octets(0x00, doc=content), created=1262305000)
         ops = build.pkt(4, bytes([3, 0, 8, 22]) + sk_.keyid + b'\x01')
         directed('inner=one-pass signed literal in partial lengths with a final length of %d, signature after it' % fl, ops + lit + sigp, content, 9, s2k=(3, 8, 0))
+    # (a'') recipients from ANOTHER producer, imported into PGPy as secret keys, whose secret scalar has leading zero octets as stored
+    #       (an unclamped Curve25519 secret below 2^248, below 2^240; a small NIST scalar): PGPy decrypts what is encrypted to them
+    import os as _os
+    for rlabel, rkind, rawp in (('cv25519, top octet of the stored secret zero', 'cv25519', _os.urandom(31) + b'\x00'),
+                                ('cv25519, two top octets of the stored secret zero', 'cv25519', _os.urandom(30) + b'\x00\x00'),
+                                ('cv25519, stored secret clamped', 'cv25519', None),
+                                ('P-256, scalar with two leading zero octets', 'ecdh256', b'\x00\x00' + _os.urandom(30)),
+                                ('P-384, scalar with a leading zero octet', 'ecdh384', b'\x00' + _os.urandom(47))):
+        try:
+            prim_ = build.ForeignKey('ed25519')
+            rec_ = enc.Recipient(rkind, created=prim_.created + 9, raw_private=rawp)
+            sblob = build.transferable_key(prim_, [b'Foreign Secret Recipient <fsr@example.org>'], subkeys=[(rec_, 0x0C)], secret=True)
+            with warnings.catch_warnings():
+                warnings.simplefilter('ignore')
+                skey = pgpy.PGPKey.from_blob(sblob)[0]
+        except Exception as ex:
+            ctx.note('foreign secret recipient (%s) not constructible / importable: %s' % (rlabel, repr(ex)[:80]))
+            continue
+        content = b'to a recipient key made elsewhere'
+        inner = build.pkt(11, b'b\x00' + bytes(4) + content)
+        prm = {'kind': 'ecdh', 'keyid': rec_.keyid, 'oid': rec_.oid, 'curve': 'cv25519' if rkind == 'cv25519' else {'ecdh256': 'p256', 'ecdh384': 'p384'}[rkind],
+               'point': (b'\x40' + rec_.priv.public_key().public_bytes(serialization.Encoding.Raw, serialization.PublicFormat.Raw)) if rkind == 'cv25519' else
+               (lambda n_, sz_: b'\x04' + n_.x.to_bytes(sz_, 'big') + n_.y.to_bytes(sz_, 'big'))(rec_.priv.public_key().public_numbers(), (rec_.priv.curve.key_size + 7) // 8),
+               'kdf': rec_.kdf, 'fpr': rec_.fingerprint}
+        blob, log = enc.encrypt_message(inner, 9, recipients=[prm])
+        e = {'k': 'foreign', 'label': 'cipher=9 to=foreign secret key imported into PGPy (%s) inner=literal' % rlabel, 'blob': octets(blob), 'log': log,
+             'recipients': [{'keyid': octets(rec_.keyid), 'body': octets(rec_.pub_body), 'fpr': octets(rec_.fingerprint)}], 'inner': octets(inner), 'expected': _sha(content)}
+        try:
+            dec = skey.decrypt(pgpy.PGPMessage.from_blob(blob))
+            e.update({'raised': False, 'after': _sha(bytes(dec._message._contents))})
+        except Exception as ex:
+            e.update({'raised': True, 'after': '', 'exc': repr(ex)[:120]})
+        ev.append(e)
     # (b) the SKESK cipher (which wraps the session key) differs from the data cipher, in both directions of every key-size pair
     small = b'wrapped under another cipher'
     for alg, walg in ((9, 7), (7, 9), (9, 8), (8, 9), (7, 8), (8, 7), (3, 9), (9, 3), (2, 7), (7, 2), (4, 9), (13, 11), (11, 13), (12, 7)):
